@@ -924,7 +924,55 @@ def rule_input_index_bounded(ctx: Ctx, rep: Report) -> None:
     rep.floor(rule, 9)
 
 
+def rule_digit_runs_bounded(ctx: Ctx, rep: Report) -> None:
+    """C19.digit_runs_bounded: `int(text)` of a digit string is quadratic in its
+    length and, past 4300 digits, a ValueError of the interpreter's own. A
+    module-level pattern that is nothing but a run of digits (`[0-9]+`, `\\d+`)
+    is what vets such a string before `int` sees it, and it bounds the run:
+    the quantifier has a maximum (`{1,10}`). The patterns are read with the
+    standard library's regex parser, as data."""
+    import re._parser as _sp  # the regex *parser*: the pattern is analysed, nothing of btclib runs
+    rule = "C19.digit_runs_bounded"
+    n = 0
+    for mq, mi in sorted(ctx.prog.modules.items()):
+        for st in mi.tree.body:
+            if not (isinstance(st, ast.Assign) and isinstance(st.targets[0], ast.Name) and isinstance(st.value, ast.Call) and str(norm(st.value.func)) == "re.compile" and st.value.args):
+                continue
+            pat = ctx.fold(st.value.args[0], mi)
+            if not isinstance(pat, str):
+                continue
+            try:
+                items = list(_sp.parse(pat))
+            except Exception:  # noqa: BLE001
+                continue
+            if len(items) != 1 or str(items[0][0]) not in ("MAX_REPEAT", "MIN_REPEAT"):
+                continue
+            lo, hi, sub = items[0][1]
+            sub = list(sub)
+            digits = len(sub) == 1 and ((str(sub[0][0]) == "IN" and all((str(k) == "RANGE" and v == (48, 57)) or (str(k) == "CATEGORY" and "DIGIT" in str(v)) for k, v in sub[0][1])))
+            if not digits:
+                continue
+            n += 1
+            bounded = hi != _sp.MAXREPEAT and hi <= 40
+            if not bounded:
+                # unbounded is fine where every int() of what it vetted sits in a handler for ValueError
+                pname = st.targets[0].id
+                ints = []
+                for f_ in mi.functions.values():
+                    vetted = {c.args[0].id for c in own_nodes(f_.node) if isinstance(c, ast.Call) and isinstance(c.func, ast.Attribute) and c.func.attr in ("fullmatch", "match")
+                              and isinstance(c.func.value, ast.Name) and c.func.value.id == pname and c.args and isinstance(c.args[0], ast.Name)}
+                    ints += [(f_, c) for c in own_nodes(f_.node) if isinstance(c, ast.Call) and isinstance(c.func, ast.Name) and c.func.id == "int" and c.args and isinstance(c.args[0], ast.Name) and c.args[0].id in vetted]
+                if ints and all(_local_handlers(c) & {"ValueError", "Exception", "BaseException"} for _f, c in ints):
+                    rep.ob(rule, f"{mq}.{pname}", True, f"{mi.relpath}:{st.lineno}", f"`{pat}` is unbounded, and every int() of what it vets is inside a ValueError handler")
+                    continue
+            rep.ob(rule, f"{mq}.{st.targets[0].id}", bounded, f"{mi.relpath}:{st.lineno}", f"`{pat}`: at most {hi} digits" if bounded else
+                   f"`{pat}` admits a digit run of any length: int() of it is the interpreter's ValueError past 4300 digits, out of a parser of hostile text")
+    rep.floor(rule, 2)
+
+
 RULES = [
+    ("C19.digit_runs_bounded", rule_digit_runs_bounded),
+
     ("C19.input_index_bounded", rule_input_index_bounded),
 
     ("C19.int_fields_typed", rule_int_fields_typed),
